@@ -2,13 +2,15 @@
 package c15
 
 import (
-	"regexp"
 	"bytes"
+	"compress/flate"
 	"compress/gzip"
+	"encoding/json"
 	"fmt"
 	"io"
 	"os"
 	"path/filepath"
+	"regexp"
 	"sort"
 	"strings"
 	"testing"
@@ -24,6 +26,7 @@ import (
 )
 
 type Damage struct {
+	At    int    `json:"at,omitempty"` // bit position (modulo the file size) for kind bitflip
 	Asset string `json:"asset"`
 	Rep   string `json:"rep"`
 	Kind  string `json:"kind"` // absent | plain-json | truncated | garbage | wrong-schema | empty | trailing-junk
@@ -34,7 +37,7 @@ type Case struct {
 	Layouts      []assetgen.Layout `json:"layouts"`
 	Inadmissible []assetgen.Layout `json:"inadmissible"`
 	Gapped       []assetgen.Layout `json:"gapped,omitempty"` // raw table with a hole at the first boundary
-	SharedRoot   bool              `json:"shared_root"` // metadata root = vod root
+	SharedRoot   bool              `json:"shared_root"`      // metadata root = vod root
 	Damages      []Damage          `json:"damages"`
 	Rewrite      bool              `json:"rewrite_after_damage"` // run a writing server over the damaged cache before loading
 	Instants     []int64           `json:"instants"`
@@ -49,7 +52,9 @@ func genCase(t *rapid.T) Case {
 	c.Bundled = append(c.Bundled, perm[:nb]...)
 	nl := rapid.IntRange(0, 2).Draw(t, "nlayouts")
 	for i := 0; i < nl; i++ {
-		c.Layouts = append(c.Layouts, assetgen.Gen(t, assetgen.Opts{AllowText: true, AllowThumb: true, MinFrames: 10, MaxFrames: 60}))
+		l := assetgen.Gen(t, assetgen.Opts{AllowText: true, AllowThumb: true, MinFrames: 10, MaxFrames: 60})
+		l.TfhdDur = rapid.Bool().Draw(t, "tfhd-defaults") // sample durations as tfhd defaults instead of trun entries
+		c.Layouts = append(c.Layouts, l)
 	}
 	// a layout whose raw segment table has a hole at its first boundary (the loader closes it) and, separately, the bundled
 	// MPD style with @duration in seconds and no @timescale
@@ -116,7 +121,7 @@ func genCase(t *rapid.T) Case {
 	nd := rapid.IntRange(0, 3).Draw(t, "ndamage")
 	for i := 0; i < nd && len(reps) > 0; i++ {
 		r := rapid.SampledFrom(reps).Draw(t, "damaged-rep")
-		c.Damages = append(c.Damages, Damage{Asset: r.asset, Rep: r.rep, Kind: rapid.SampledFrom([]string{"absent", "plain-json", "truncated", "garbage", "wrong-schema", "empty", "trailing-junk", "field-type", "bad-media-uri"}).Draw(t, "damage")})
+		c.Damages = append(c.Damages, Damage{Asset: r.asset, Rep: r.rep, Kind: rapid.SampledFrom([]string{"absent", "plain-json", "truncated", "garbage", "wrong-schema", "empty", "trailing-junk", "field-type", "bad-media-uri", "bitflip", "bitflip", "bitflip"}).Draw(t, "damage"), At: rapid.IntRange(0, 1<<20).Draw(t, "at")})
 	}
 	for i := 0; i < 3; i++ {
 		c.Instants = append(c.Instants, int64(rapid.SampledFrom([]int{20_000, 100_000, 1_000_000, 1_700_000_000}).Draw(t, "base"))*1+int64(rapid.IntRange(0, 20000).Draw(t, "off")))
@@ -164,13 +169,14 @@ func cacheFiles(root string) (map[string][]byte, error) {
 }
 
 type info struct {
-	requests  int
-	damaged   int
-	inadm     int
-	leftOut   int
-	refused   bool
-	gapped    int
-	identical int
+	requests     int
+	damaged      int
+	inadm        int
+	leftOut      int
+	refused      bool
+	gapped       int
+	checksumOnly int
+	identical    int
 }
 
 func checkCase(c Case, work string) (*hx.Violation, info) {
@@ -285,6 +291,32 @@ func checkCase(c Case, work string) (*hx.Violation, info) {
 			_, _ = zw.Write(mod)
 			_ = zw.Close()
 			_ = os.WriteFile(p, buf.Bytes(), 0o644)
+		case "bitflip":
+			// one flipped bit inside the compressed stream: the gzip checksum no longer matches, whatever the bytes inflate to
+			mod := append([]byte{}, orig...)
+			if len(mod) > 30 {
+				// preferred: a flip after which the deflate stream still inflates to syntactically valid JSON with other content,
+				// so that only the checksum tells (searched from the drawn position on); otherwise the drawn position itself
+				nbits := (len(mod) - 18) * 8
+				chosen := 10*8 + d.At%nbits
+				for k := 0; k < 600; k++ {
+					bit := 10*8 + (d.At+k*7)%nbits
+					try := append([]byte{}, orig...)
+					try[bit/8] ^= 1 << (bit % 8)
+					out, err := io.ReadAll(flate.NewReader(bytes.NewReader(try[10 : len(try)-8])))
+					if err == nil && json.Valid(out) {
+						if zr, e2 := gzip.NewReader(bytes.NewReader(orig)); e2 == nil {
+							if plain, _ := io.ReadAll(zr); !bytes.Equal(plain, out) {
+								chosen = bit
+								inf.checksumOnly++
+								break
+							}
+						}
+					}
+				}
+				mod[chosen/8] ^= 1 << (chosen % 8)
+			}
+			_ = os.WriteFile(p, mod, 0o644)
 		case "empty":
 			_ = os.WriteFile(p, nil, 0o644)
 		case "trailing-junk":
